@@ -128,6 +128,12 @@ func init() {
 			return x.F.Sub(x.timeNs(a[0]), x.readClock()), nDone
 		},
 		"(time.Duration).String": func(x *Exec, t *Thread, a []Value, c *callCtx) (Value, nativeStatus) { return Str{K: "<duration>"}, nDone },
+		"strings.Join":      nStringsJoin,
+		"strings.Index":     nStringsIndex,
+		"strings.Split":     nStringsSplit,
+		"strings.Contains":  nStringsContains,
+		"strings.HasPrefix": nStringsHasPrefix,
+		"strings.HasSuffix": nStringsHasSuffix,
 		"time.NewTimer":          nNewTimer,
 		"(*time.Timer).Stop":     nTimerStop,
 	}
@@ -847,3 +853,71 @@ func nTimerStop(x *Exec, t *Thread, a []Value, c *callCtx) (Value, nativeStatus)
 }
 
 var _ = ssa.BuilderMode(0)
+
+// ---------------------------------------------------------------------
+// strings (exact for any content: Join; concrete arguments only: Index, Split, Contains)
+
+func nStringsJoin(x *Exec, t *Thread, a []Value, c *callCtx) (Value, nativeStatus) {
+	elems := x.sliceValues(a[0])
+	sep := a[1].(Str)
+	var bs []*Term
+	for i, e := range elems {
+		if i > 0 {
+			bs = append(bs, x.strBytes(sep)...)
+		}
+		bs = append(bs, x.strBytes(e.(Str))...)
+	}
+	return x.strFromBytes(bs), nDone
+}
+
+func (x *Exec) twoConcrete(a []Value) (string, string, bool) {
+	s1, ok1 := x.strConcrete(a[0].(Str))
+	s2, ok2 := x.strConcrete(a[1].(Str))
+	return s1, s2, ok1 && ok2
+}
+
+func nStringsIndex(x *Exec, t *Thread, a []Value, c *callCtx) (Value, nativeStatus) {
+	s1, s2, ok := x.twoConcrete(a)
+	if !ok {
+		return nil, nDecline
+	}
+	return x.F.BV(64, uint64(int64(strings.Index(s1, s2)))), nDone
+}
+
+func nStringsContains(x *Exec, t *Thread, a []Value, c *callCtx) (Value, nativeStatus) {
+	s1, s2, ok := x.twoConcrete(a)
+	if !ok {
+		return nil, nDecline
+	}
+	return x.F.Bool(strings.Contains(s1, s2)), nDone
+}
+
+func nStringsHasPrefix(x *Exec, t *Thread, a []Value, c *callCtx) (Value, nativeStatus) {
+	s1, s2, ok := x.twoConcrete(a)
+	if !ok {
+		return nil, nDecline
+	}
+	return x.F.Bool(strings.HasPrefix(s1, s2)), nDone
+}
+
+func nStringsHasSuffix(x *Exec, t *Thread, a []Value, c *callCtx) (Value, nativeStatus) {
+	s1, s2, ok := x.twoConcrete(a)
+	if !ok {
+		return nil, nDecline
+	}
+	return x.F.Bool(strings.HasSuffix(s1, s2)), nDone
+}
+
+func nStringsSplit(x *Exec, t *Thread, a []Value, c *callCtx) (Value, nativeStatus) {
+	s1, s2, ok := x.twoConcrete(a)
+	if !ok {
+		return nil, nDecline
+	}
+	parts := strings.Split(s1, s2)
+	st := types.Typ[types.String]
+	arr := x.newArrayCell(st, len(parts))
+	for i, p := range parts {
+		arr.Sub[i].V = Str{K: p}
+	}
+	return Slice{Arr: arr, Len: len(parts), Cap: len(parts), Elem: st}, nDone
+}
